@@ -351,6 +351,19 @@ def gen_control_literal_case(rng):
     return dict(pats=pats, flags=f, input=data, cli=rng.random() < 0.5)
 
 
+def gen_nested_case(rng):
+    pat, lines = R.gen_nested_literal(rng)
+    f = dict.fromkeys(FLAG_NAMES, False)
+    if rng.random() < 0.5:
+        f["word"] = True
+    if rng.random() < 0.25:
+        f["invert"] = True
+    if rng.random() < 0.1:
+        f["crlf"] = True
+    data = term(f).join(lines) + (term(f) if rng.random() < 0.8 else b"")
+    return dict(pats=[pat], flags=f, input=data, cli=rng.random() < 0.3)
+
+
 def gen_counted_case(rng):
     pat, lines = R.gen_counted(rng)
     f = dict.fromkeys(FLAG_NAMES, False)
@@ -387,6 +400,8 @@ CORPUS = [
     (["(?-u:\\xff)"], {}, b"a\xffb\n\xfe\n"),
     (["\\b[A-Z]x:(ab){12};z"], {}, b"foo Qx:" + b"ab" * 12 + b";z bar\nfoo Qx:" + b"ab" * 11 + b";z bar\nfoo Qx:" + b"ab" * 13 + b";z\n"),
     ([":(ab){12};"], dict(word=True), b"foo Qx :" + b"ab" * 12 + b"; z bar\nQ:" + b"ab" * 10 + b";\n"),
+    (["foo(\\w+bar)baz"], dict(word=True), b"fooxbarbaz\nfoobaz\nx fooxbarbaz y\n"),
+    (["\\s+([A-Z]foo(\\d+bar)baz|Moriarty)\\s+"], {}, b" Qfoo1barbaz \n Qfoobaz \n Moriarty \n"),
     (["foo[A-z]"], dict(smart=True), b"fooa\nFOOA\nFOO_\n"), (["x[B-b]"], dict(smart=True), b"xb\nXB\nXb\n"),
     (["a\rb"], dict(crlf=True), b"a\rb\r\nab\r\n"), (["a\rb"], dict(crlf=True, fixed=True), b"za\rbq\r\n"),
     (["\\d", "\\D"], dict(icase=True), b"1\na\n\n"),
@@ -407,14 +422,14 @@ def run(ctx):
         cases.append(dict(pats=pats, flags=f, input=inp))
     check_cases(ctx, cases, stats, cli_every=1)
     special = [gen_multi_case(rng) for _ in range(ctx.count(220))] + [gen_counted_case(rng) for _ in range(ctx.count(200))] + \
-        [gen_smart_case(rng) for _ in range(ctx.count(200))] + [gen_control_literal_case(rng) for _ in range(ctx.count(200))]
+        [gen_nested_case(rng) for _ in range(ctx.count(200))] + [gen_smart_case(rng) for _ in range(ctx.count(200))] + [gen_control_literal_case(rng) for _ in range(ctx.count(200))]
     stats["smart_case_range_cases"] = ctx.count(200)
     stats["control_literal_cases"] = ctx.count(200)
     stats["multi_pattern_case_pairs"] = ctx.count(220)
     stats["counted_repetition_cases"] = ctx.count(200)
     check_cases(ctx, special, stats)
     gen = []
-    for _ in range(ctx.count(4500)):
+    for _ in range(ctx.count(3800)):
         f = gen_flags(rng)
         pats = gen_pats(rng, f)
         gen.append(dict(pats=pats, flags=f, input=gen_input(rng, pats, f)))
